@@ -140,6 +140,11 @@ class ExcFlow:
         out = []
         for t in ts:
             k = self.key(self.repo.resolve_expr(fn.module, t, fn.cls))
+            if k is None and isinstance(t, ast.Name):
+                held = self._classes_from_param(fn, t.id)  # `except kind:` where `kind` is a parameter holding a class
+                if held:
+                    out.extend(held)
+                    continue
             if k is None:
                 d = dotted(t) or "?"
                 k = "ext:" + d.split(".")[-1]
@@ -207,6 +212,8 @@ class ExcFlow:
                 else:
                     target = n.exc.func if isinstance(n.exc, ast.Call) else n.exc
                     r_t = self.repo.resolve_expr(fn.module, target, fn.cls)
+                    if r_t is None and isinstance(target, ast.Name):
+                        r_t = self._local_def(fn, target.id)
                     if isinstance(r_t, FuncInfo) and isinstance(n.exc, ast.Call):
                         # `raise helper(ex, ...)`: the helper hands the caught object back (after stamping it), or makes a new one
                         params = r_t.params[1:] if (r_t.cls is not None and not r_t.is_static) else r_t.params
@@ -221,6 +228,11 @@ class ExcFlow:
                                 new.append((c, n))
                             continue
                     k = self.key(r_t)
+                    if k is None and isinstance(target, ast.Name):
+                        held = self._classes_from_param(fn, target.id)
+                        if held:
+                            new.extend((c, n) for c in held)
+                            continue
                     if k is None:
                         k = "ext:" + (dotted(target) or "Exception").split(".")[-1]
                     new.append((k, n))
@@ -256,6 +268,8 @@ class ExcFlow:
                     continue
                 target = n.exc.func if isinstance(n.exc, ast.Call) else n.exc
                 r0 = self.repo.resolve_expr(fn.module, target, fn.cls) if not (isinstance(target, ast.Attribute) and isinstance(target.value, ast.Name) and target.value.id in ("self", "cls")) else (self.repo.lookup_method(fn.cls, target.attr) if fn.cls is not None else None)
+                if r0 is None and isinstance(target, ast.Name):
+                    r0 = self._local_def(fn, target.id)  # `raise make(...)` where `make` is a def of this function or of one around it
                 if isinstance(r0, FuncInfo) and isinstance(n.exc, ast.Call):
                     # `raise helper(...)`: the helper builds the exception - its class is what the helper returns
                     made = self._returned_classes(r0)
@@ -279,9 +293,9 @@ class ExcFlow:
                         stack.extend(ast.iter_child_nodes(n))
                         continue
                 if k is None and isinstance(target, ast.Name):
-                    # `raise kind(...)` where `kind` was taken out of a table of the module (`kind, text = _TABLE[code]`): the
-                    # classes listed in that table
-                    made_t = self._classes_from_table(fn, target.id)
+                    # `raise kind(...)` where `kind` is a parameter: the classes the call sites pass; or where it was taken out of
+                    # a table of the module (`kind, text = _TABLE[code]`): the classes listed in that table
+                    made_t = self._classes_from_param(fn, target.id) or self._classes_from_table(fn, target.id)
                     if made_t:
                         for c in made_t:
                             if not self.suppress_explicit(fn, n, c):
@@ -301,6 +315,63 @@ class ExcFlow:
                     out.append((k, n, norm(n)[:80]))
             stack.extend(ast.iter_child_nodes(n))
         return out
+
+    @staticmethod
+    def _local_def(fn: FuncInfo, name: str) -> Optional[FuncInfo]:
+        cur: Optional[FuncInfo] = fn
+        while cur is not None:
+            if name in cur.nested:
+                return cur.nested[name]
+            cur = getattr(cur, "parent", None)
+        return None
+
+    def _classes_from_param(self, fn: FuncInfo, var: str, seen: Optional[Set[Tuple[str, str]]] = None) -> List[Exc]:
+        """the exception classes a *parameter* of fn can hold: what every call site of fn in the package passes for it (a class
+        by name, or the caller's own parameter, followed the same way); [] as soon as one site passes anything else, when there
+        is no site, or when the function rebinds the name"""
+        seen = set() if seen is None else seen
+        if (fn.qualname, var) in seen or var not in fn.params:
+            return []
+        seen.add((fn.qualname, var))
+        for n in ast.walk(fn.node):
+            if isinstance(n, ast.Name) and n.id == var and isinstance(n.ctx, (ast.Store, ast.Del)):
+                return []
+        idx = fn.params.index(var)
+        pos = idx - (1 if fn.cls is not None and not fn.is_static else 0)
+        out: List[Exc] = []
+        sites = 0
+        for other, c in self.repo.all_calls():
+            f = c.func
+            if not ((isinstance(f, ast.Attribute) and f.attr == fn.name) or (isinstance(f, ast.Name) and f.id == fn.name)):
+                continue
+            if any(isinstance(a_, ast.Starred) for a_ in c.args) or any(k_.arg is None for k_ in c.keywords):
+                return []
+            a = c.args[pos] if 0 <= pos < len(c.args) else next((k.value for k in c.keywords if k.arg == var), None)
+            if a is None:
+                a = dict(zip(reversed(fn.params), reversed(fn.node.args.defaults))).get(var)
+                if a is None:
+                    return []
+                other = fn  # (a default is an expression of the defining module)
+            sites += 1
+            try:
+                r = self.repo.resolve_expr(other.module, a, other.cls)
+            except Exception:
+                r = None
+            k = self.key(r)
+            if k is not None:
+                out.append(k)
+            elif isinstance(a, ast.Name) and a.id in other.params:
+                more = self._classes_from_param(other, a.id, seen)
+                if not more:
+                    return []
+                out.extend(more)
+            else:
+                return []
+        uniq: List[Exc] = []
+        for k in out:
+            if k not in uniq:
+                uniq.append(k)
+        return uniq if sites else []
 
     def _classes_from_table(self, fn: FuncInfo, var: str) -> List[Exc]:
         """the exception classes a local variable can hold when it is bound (directly or by unpacking) from a subscript /
